@@ -54,6 +54,12 @@ def encodeWithOffset (cap : Nat) (chunks : List (Except SerErr Bytes)) (typ flag
   | .error e => .error e
   | .ok w => w.finalize typ flags
 
+/-- The three properties of every CONNECT (`connect_handshake`): Maximum Packet Size = size of the
+receive buffer, Session Expiry Interval, Receive Maximum = capacity of the inbound QoS 2 id list. -/
+def connectProps (rx expiry : Nat) : List Property :=
+  [{ kind := .MaximumPacketSize, val := .n rx }, { kind := .SessionExpiryInterval, val := .n expiry },
+   { kind := .ReceiveMaximum, val := .n MAX_INBOUND_QOS2 }]
+
 def encodeConnect (cap : Nat) (c : Connect) : Except SerErr (Nat × Bytes) :=
   encodeWithOffset cap c.chunks MT_Connect FLAGS_Connect
 
